@@ -28,14 +28,17 @@ func TestC11CleanStop(t *testing.T) {
 	}
 	a.QiPerStep, a.ConvEvery = 3, 2
 	defer a.N.Stop()
-	nBlocks := 30
-	h, err := buildHistory(a, nBlocks, 22)
+	nBlocks, zoneFrom := 30, 22
+	if m.Thorough() {
+		nBlocks, zoneFrom = 64, 36
+	}
+	h, err := buildHistory(a, nBlocks, zoneFrom)
 	if err != nil {
 		t.Fatal(err)
 	}
 	base, mined, imgs := h.base, h.mined, h.imgs
 	base.Stop() // no mining after this point (see TestC11Recrash)
-	nIdle, nUnexec, nDom := m.N(3, 8), m.N(3, 8), m.N(2, 4)
+	nIdle, nUnexec, nDom := m.N(3, 12), m.N(3, 12), m.N(2, 8)
 	for i := nBlocks - 3; i >= 10 && (nIdle > 0 || nUnexec > 0 || nDom > 0); i-- {
 		b, nx := mined[i+1], mined[i+2]
 		old := []string{mined[i].Hash.Hex()}
@@ -65,5 +68,5 @@ func TestC11CleanStop(t *testing.T) {
 		}
 	}
 	m.Need("clean-stop-idle:complete", "clean-stop-unexecuted:complete")
-	m.Floor(int64(m.N(120, 400)), m.N(30, 40))
+	m.Floor(int64(m.N(120, 1200)), m.N(30, 60))
 }
